@@ -77,6 +77,9 @@ func findTableDepth(
 		for _, attrName := range attrNames {
 			attrType := relEntity.AttrDefs[attrName]
 			if typeRef := attrType.GetTypeRef(); typeRef != nil {
+				if len(typeRef.GetRef().Path) < 2 {
+					continue // no column named: not a foreign key, nothing to wait for
+				}
 				if val, ok := visitedTableAttrs[typeRef.GetRef().Path[0]+"."+typeRef.GetRef().Path[1]]; ok {
 					newDepth := completeTableDepthMap[typeRef.GetRef().Path[0]] + 1
 					tempVisitedAttrs[tableName+"."+attrName] = val
